@@ -384,6 +384,14 @@ def eventV1_eventV1_calculatedStickyEndTime : List String := [
   "return startTime.Add(time.Duration(durationMillis) * time.Millisecond)"
 ]
 
+def eventV1_type_eventV1 : List String := [
+  "type eventV1 struct { redacted bool eventJSON []byte roomVersion RoomVersion eventFields EventIDRaw string `json:\"event_id,omitempty\"` PrevEvents []eventReference `json:\"prev_events\"` AuthEvents []eventReference `json:\"auth_events\"` UnstableSticky stickyEventData `json:\"msc4354_sticky,omitempty\"` StableSticky stickyEventData `json:\"sticky,omitempty\"` }"
+]
+
+def eventV1_type_stickyEventData : List String := [
+  "type stickyEventData struct { DurationMillis int64 `json:\"duration_ms\"` }"
+]
+
 def eventV2__CheckFields : List String := [
   "func func(input PDU) error",
   "if input.AuthEventIDs() == nil || input.PrevEventIDs() == nil {",
@@ -637,6 +645,10 @@ def eventV2_eventV2_populateEventID : List String := [
   "return nil"
 ]
 
+def eventV2_type_eventV2 : List String := [
+  "type eventV2 struct { eventV1 PrevEvents []string `json:\"prev_events\"` AuthEvents []string `json:\"auth_events\"` }"
+]
+
 def eventV3__checkRoomID : List String := [
   "func func(res *eventV3) error",
   "isCreateEvent := res.Type() == spec.MRoomCreate && res.StateKeyEquals(\"\")",
@@ -790,6 +802,10 @@ def eventV3_eventV3_SetUnsigned : List String := [
 def eventV3_eventV3_Sign : List String := [
   "func func(signingName string, keyID KeyID, privateKey ed25519.PrivateKey) PDU",
   "return &eventV3{eventV2: *e.eventV2.Sign(signingName, keyID, privateKey).(*eventV2)}"
+]
+
+def eventV3_type_eventV3 : List String := [
+  "type eventV3 struct{ eventV2 }"
 ]
 
 def eventcrypto__VerifyAllEventSignatures : List String := [
@@ -1204,6 +1220,18 @@ def redactevent__redactEventJSONV5 : List String := [
   "return redactEventJSON(eventJSON, &unredactableEventFieldsV2{}, unredactableContentFieldsV5)"
 ]
 
+def redactevent_type_unredactableEvent : List String := [
+  "type unredactableEvent interface { *unredactableEventFieldsV1 | *unredactableEventFieldsV2 GetType() string GetContent() map[string]interface{} SetContent(map[string]interface{}) }"
+]
+
+def redactevent_type_unredactableEventFieldsV1 : List String := [
+  "type unredactableEventFieldsV1 struct { EventID spec.RawJSON `json:\"event_id,omitempty\"` Type string `json:\"type\"` RoomID spec.RawJSON `json:\"room_id,omitempty\"` Sender spec.RawJSON `json:\"sender,omitempty\"` StateKey spec.RawJSON `json:\"state_key,omitempty\"` Content map[string]interface{} `json:\"content\"` Hashes spec.RawJSON `json:\"hashes,omitempty\"` Signatures spec.RawJSON `json:\"signatures,omitempty\"` Depth spec.RawJSON `json:\"depth,omitempty\"` PrevEvents spec.RawJSON `json:\"prev_events,omitempty\"` PrevState spec.RawJSON `json:\"prev_state,omitempty\"` AuthEvents spec.RawJSON `json:\"auth_events,omitempty\"` Origin spec.RawJSON `json:\"origin,omitempty\"` OriginServerTS spec.RawJSON `json:\"origin_server_ts,omitempty\"` Membership spec.RawJSON `json:\"membership,omitempty\"` }"
+]
+
+def redactevent_type_unredactableEventFieldsV2 : List String := [
+  "type unredactableEventFieldsV2 struct { EventID spec.RawJSON `json:\"event_id,omitempty\"` Type string `json:\"type\"` RoomID spec.RawJSON `json:\"room_id,omitempty\"` Sender spec.RawJSON `json:\"sender,omitempty\"` StateKey spec.RawJSON `json:\"state_key,omitempty\"` Content map[string]interface{} `json:\"content\"` Hashes spec.RawJSON `json:\"hashes,omitempty\"` Signatures spec.RawJSON `json:\"signatures,omitempty\"` Depth spec.RawJSON `json:\"depth,omitempty\"` PrevEvents spec.RawJSON `json:\"prev_events,omitempty\"` AuthEvents spec.RawJSON `json:\"auth_events,omitempty\"` OriginServerTS spec.RawJSON `json:\"origin_server_ts,omitempty\"` }"
+]
+
 def redactevent_unredactableEventFieldsV1_GetContent : List String := [
   "func func() map[string]interface{}",
   "return u.Content"
@@ -1234,6 +1262,6 @@ def redactevent_unredactableEventFieldsV2_SetContent : List String := [
   "u.Content = content"
 ]
 
-def functions : List String := ["eventV1.go:.newEventFromTrustedJSONV1", "eventV1.go:.newEventFromTrustedJSONWithEventIDV1", "eventV1.go:.newEventFromUntrustedJSONV1", "eventV1.go:.signableEventJSON", "eventV1.go:eventV1.AuthEventIDs", "eventV1.go:eventV1.Content", "eventV1.go:eventV1.Depth", "eventV1.go:eventV1.EventID", "eventV1.go:eventV1.HistoryVisibility", "eventV1.go:eventV1.IsSticky", "eventV1.go:eventV1.JSON", "eventV1.go:eventV1.JoinRule", "eventV1.go:eventV1.MarshalJSON", "eventV1.go:eventV1.Membership", "eventV1.go:eventV1.OriginServerTS", "eventV1.go:eventV1.PowerLevels", "eventV1.go:eventV1.PrevEventIDs", "eventV1.go:eventV1.Redact", "eventV1.go:eventV1.Redacted", "eventV1.go:eventV1.Redacts", "eventV1.go:eventV1.RoomID", "eventV1.go:eventV1.SenderID", "eventV1.go:eventV1.SetUnsigned", "eventV1.go:eventV1.SetUnsignedField", "eventV1.go:eventV1.Sign", "eventV1.go:eventV1.StateKey", "eventV1.go:eventV1.StateKeyEquals", "eventV1.go:eventV1.StickyEndTime", "eventV1.go:eventV1.ToHeaderedJSON", "eventV1.go:eventV1.Type", "eventV1.go:eventV1.Unsigned", "eventV1.go:eventV1.Version", "eventV1.go:eventV1.assumedStickyStartTime", "eventV1.go:eventV1.calculatedStickyEndTime", "eventV2.go:.CheckFields", "eventV2.go:.newEventFromTrustedJSONV2", "eventV2.go:.newEventFromTrustedJSONWithEventIDV2", "eventV2.go:.newEventFromUntrustedJSONV2", "eventV2.go:eventV2.AuthEventIDs", "eventV2.go:eventV2.EventID", "eventV2.go:eventV2.MarshalJSON", "eventV2.go:eventV2.PrevEventIDs", "eventV2.go:eventV2.Redact", "eventV2.go:eventV2.SenderID", "eventV2.go:eventV2.SetUnsigned", "eventV2.go:eventV2.Sign", "eventV2.go:eventV2.populateEventID", "eventV3.go:.checkRoomID", "eventV3.go:.newEventFromTrustedJSONV3", "eventV3.go:.newEventFromTrustedJSONWithEventIDV3", "eventV3.go:.newEventFromUntrustedJSONV3", "eventV3.go:eventV3.AuthEventIDs", "eventV3.go:eventV3.RoomID", "eventV3.go:eventV3.SetUnsigned", "eventV3.go:eventV3.Sign", "eventcrypto.go:.VerifyAllEventSignatures", "eventcrypto.go:.VerifyEventSignatures", "eventcrypto.go:.addContentHashesToEvent", "eventcrypto.go:.checkEventContentHash", "eventcrypto.go:.emptyAuthorisedViaServerName", "eventcrypto.go:.extractAuthorisedViaServerName", "eventcrypto.go:.getMXIDMapping", "eventcrypto.go:.membershipForSignatures", "eventcrypto.go:.referenceOfEvent", "eventcrypto.go:.referenceOfEventForVersion", "eventcrypto.go:.signEvent", "eventcrypto.go:.validateMXIDMappingSignatures", "redactevent.go:.exactFieldsOnly", "redactevent.go:.exactMembersOnly", "redactevent.go:.redactEventJSON", "redactevent.go:.redactEventJSONV1", "redactevent.go:.redactEventJSONV2", "redactevent.go:.redactEventJSONV3", "redactevent.go:.redactEventJSONV4", "redactevent.go:.redactEventJSONV5", "redactevent.go:unredactableEventFieldsV1.GetContent", "redactevent.go:unredactableEventFieldsV1.GetType", "redactevent.go:unredactableEventFieldsV1.SetContent", "redactevent.go:unredactableEventFieldsV2.GetContent", "redactevent.go:unredactableEventFieldsV2.GetType", "redactevent.go:unredactableEventFieldsV2.SetContent"]
+def functions : List String := ["eventV1.go:.newEventFromTrustedJSONV1", "eventV1.go:.newEventFromTrustedJSONWithEventIDV1", "eventV1.go:.newEventFromUntrustedJSONV1", "eventV1.go:.signableEventJSON", "eventV1.go:eventV1.AuthEventIDs", "eventV1.go:eventV1.Content", "eventV1.go:eventV1.Depth", "eventV1.go:eventV1.EventID", "eventV1.go:eventV1.HistoryVisibility", "eventV1.go:eventV1.IsSticky", "eventV1.go:eventV1.JSON", "eventV1.go:eventV1.JoinRule", "eventV1.go:eventV1.MarshalJSON", "eventV1.go:eventV1.Membership", "eventV1.go:eventV1.OriginServerTS", "eventV1.go:eventV1.PowerLevels", "eventV1.go:eventV1.PrevEventIDs", "eventV1.go:eventV1.Redact", "eventV1.go:eventV1.Redacted", "eventV1.go:eventV1.Redacts", "eventV1.go:eventV1.RoomID", "eventV1.go:eventV1.SenderID", "eventV1.go:eventV1.SetUnsigned", "eventV1.go:eventV1.SetUnsignedField", "eventV1.go:eventV1.Sign", "eventV1.go:eventV1.StateKey", "eventV1.go:eventV1.StateKeyEquals", "eventV1.go:eventV1.StickyEndTime", "eventV1.go:eventV1.ToHeaderedJSON", "eventV1.go:eventV1.Type", "eventV1.go:eventV1.Unsigned", "eventV1.go:eventV1.Version", "eventV1.go:eventV1.assumedStickyStartTime", "eventV1.go:eventV1.calculatedStickyEndTime", "eventV1.go:type eventV1", "eventV1.go:type stickyEventData", "eventV2.go:.CheckFields", "eventV2.go:.newEventFromTrustedJSONV2", "eventV2.go:.newEventFromTrustedJSONWithEventIDV2", "eventV2.go:.newEventFromUntrustedJSONV2", "eventV2.go:eventV2.AuthEventIDs", "eventV2.go:eventV2.EventID", "eventV2.go:eventV2.MarshalJSON", "eventV2.go:eventV2.PrevEventIDs", "eventV2.go:eventV2.Redact", "eventV2.go:eventV2.SenderID", "eventV2.go:eventV2.SetUnsigned", "eventV2.go:eventV2.Sign", "eventV2.go:eventV2.populateEventID", "eventV2.go:type eventV2", "eventV3.go:.checkRoomID", "eventV3.go:.newEventFromTrustedJSONV3", "eventV3.go:.newEventFromTrustedJSONWithEventIDV3", "eventV3.go:.newEventFromUntrustedJSONV3", "eventV3.go:eventV3.AuthEventIDs", "eventV3.go:eventV3.RoomID", "eventV3.go:eventV3.SetUnsigned", "eventV3.go:eventV3.Sign", "eventV3.go:type eventV3", "eventcrypto.go:.VerifyAllEventSignatures", "eventcrypto.go:.VerifyEventSignatures", "eventcrypto.go:.addContentHashesToEvent", "eventcrypto.go:.checkEventContentHash", "eventcrypto.go:.emptyAuthorisedViaServerName", "eventcrypto.go:.extractAuthorisedViaServerName", "eventcrypto.go:.getMXIDMapping", "eventcrypto.go:.membershipForSignatures", "eventcrypto.go:.referenceOfEvent", "eventcrypto.go:.referenceOfEventForVersion", "eventcrypto.go:.signEvent", "eventcrypto.go:.validateMXIDMappingSignatures", "redactevent.go:.exactFieldsOnly", "redactevent.go:.exactMembersOnly", "redactevent.go:.redactEventJSON", "redactevent.go:.redactEventJSONV1", "redactevent.go:.redactEventJSONV2", "redactevent.go:.redactEventJSONV3", "redactevent.go:.redactEventJSONV4", "redactevent.go:.redactEventJSONV5", "redactevent.go:type unredactableEvent", "redactevent.go:type unredactableEventFieldsV1", "redactevent.go:type unredactableEventFieldsV2", "redactevent.go:unredactableEventFieldsV1.GetContent", "redactevent.go:unredactableEventFieldsV1.GetType", "redactevent.go:unredactableEventFieldsV1.SetContent", "redactevent.go:unredactableEventFieldsV2.GetContent", "redactevent.go:unredactableEventFieldsV2.GetType", "redactevent.go:unredactableEventFieldsV2.SetContent"]
 
 end VPins.C04
